@@ -87,6 +87,11 @@ class ExprBuilder:
                 return ('fn', o.fn['path'])
             if o.value is not None:
                 return ('const', o.value)
+            if o.d.get('promoted') is not None and depth < self.max_depth:
+                pb = self.body.promoted_body(o.d['promoted'])
+                if pb is not None:
+                    from cfg import CFG
+                    return ExprBuilder(CFG(pb)).local(0)
             return ('str', o.const_str() or '')
         if o.place is None:
             return ('?', 'operand')
